@@ -209,6 +209,84 @@ Theorem C08_step_gas :
 Proof. exact step_gas_all. Qed.
 Print Assumptions C08_step_gas.
 
+(* ---- 2d. memoryGasCost on the WHOLE uint64 range: Cmem_code w = 3w + ((w*w) mod 2^64)/512 is what the code charges in
+   total for w words; the function returns exactly this (explicit error above the guard 0xffffffffe0, never a panic);
+   Cmem_code = C_mem below 2^32 words and STRICTLY LESS for every accepted size from 2^32 words on (the known finding,
+   for all such sizes, not only a witness); on an expanding call the result is the Yellow-Paper fee iff fewer than 2^32 words
+   are requested.  Memory size of a step for any big operand, also for the two ranges of the call family.
+   Full-strength statement that is FALSE of the code: "= C_mem difference for every accepted size" (memoryGasCost_refuted). ---- *)
+Theorem C08_memory_gas_total :
+  (forall memLen last n, 0 <= memLen -> 0 <= last < two64 -> 0 <= n < two64 ->
+  memoryGasCost memLen last n =
+    if n =? 0 then Ok (0, last)
+    else if n >? 0xffffffffe0 then Err ErrGasUintOverflow
+    else if 32 * ceil32 n >? memLen then Ok (wrap64 (Cmem_code (ceil32 n) - last), Cmem_code (ceil32 n))
+    else Ok (0, last)) /\
+  (forall w, 0 <= w < 2^32 -> Cmem_code w = Cmem w) /\
+  (forall w, 2^32 <= w < 2^35 -> Cmem_code w < Cmem w) /\
+  (forall w0 n, 0 <= w0 < 2^32 -> 0 < n <= 0xffffffffe0 -> w0 < ceil32 n ->
+  (memoryGasCost (32 * w0) (Cmem w0) n = Ok (Cmem (ceil32 n) - Cmem w0, Cmem (ceil32 n)) <-> ceil32 n < 2^32)) /\
+  (forall memLen last n, 0 <= memLen -> 0 <= last < two64 -> 0 <= n < two64 ->
+  (memoryGasCost memLen last n = Err ErrGasUintOverflow <-> 0xffffffffe0 < n) /\ memoryGasCost memLen last n <> Panic) /\
+  (forall b, 0 <= b ->
+  run_memorySize b = if 32 * ceil32 b <=? maxU64 then Ok (32 * ceil32 b) else Err ErrGasUintOverflow) /\
+  (forall inOff inSize retOff retSize, word inOff -> word inSize -> word retOff -> word retSize ->
+  let need := Z.max (if retSize =? 0 then 0 else retOff + retSize) (if inSize =? 0 then 0 else inOff + inSize) in
+  run_memorySize (memoryCall inOff inSize retOff retSize) =
+    if 32 * ceil32 need <=? maxU64 then Ok (32 * ceil32 need) else Err ErrGasUintOverflow).
+Proof. exact memory_gas_total_all. Qed.
+Print Assumptions C08_memory_gas_total.
+
+(* ---- 2e. memory instructions WITHOUT the "memory already resized" precondition.  prepare_mem is the interpreter's own
+   preparation of a step (memory size of the operands, gas function, UseGas, Resize).  For ANY 256-bit offset / length it
+   ends in one of the two explicit errors or yields the old memory extended by zero bytes, covering the access, below the
+   guard (prepare_mem_ok); offset+length beyond 64 bits is always errGasUintOverflow; beyond the guard always an error.
+   The instruction bodies then compute the specification on the zero-extended (= the Yellow Paper's infinite) memory:
+   MLOAD MSTORE MSTORE8 CALLDATACOPY/CODECOPY SHA3, the byte range of LOGn/RETURN/REVERT/CREATE/CALL inputs;
+   RETURNDATACOPY fails with the bounds error exactly when the range exceeds the buffer and never panics. ---- *)
+Theorem C08_memory_step :
+  (forall avail mem last gasfn off len m' g l', mem_gated gasfn -> word off -> word len ->
+  prepare_mem avail mem last gasfn off len = Ok (m', g, l') ->
+  exists k, m' = mem ++ repeat 0 k /\ (len = 0 \/ off + len <= blen m') /\ blen m' <= Z.max (blen mem) MEMCAP /\
+            gasfn (blen mem) last (if len =? 0 then 0 else 32 * ceil32 (off + len)) = Ok (g, l')) /\
+  (forall avail mem last gasfn off len, (forall a b c, gasfn a b c <> Panic) -> word off -> word len ->
+  match prepare_mem avail mem last gasfn off len with
+  | Ok _ => True
+  | Err e => e = ErrGasUintOverflow \/ e = ErrOutOfGas
+  | Panic => False
+  end) /\
+  (forall avail mem last gasfn off len, word off -> word len -> len <> 0 -> two64 <= off + len ->
+  prepare_mem avail mem last gasfn off len = Err ErrGasUintOverflow) /\
+  (forall avail mem last gasfn off len, mem_gated gasfn -> (forall a b c, gasfn a b c <> Panic) ->
+  word off -> word len -> len <> 0 -> MEMCAP < off + len ->
+  exists e, prepare_mem avail mem last gasfn off len = Err e) /\
+  (forall avail mem last off v m' g l', mem_bounded mem -> word off ->
+  run_MLOAD avail mem last off = Ok (v, m', g, l') ->
+  v = spec_MLOAD mem off /\ (exists k, m' = mem ++ repeat 0 k) /\ off + 32 <= blen m') /\
+  (forall avail mem last off v m'' g l', mem_bounded mem -> bytesval mem -> word off -> word v ->
+  run_MSTORE avail mem last off v = Ok (m'', g, l') ->
+  exists k, m'' = spec_MSTORE (mem ++ repeat 0 k) off v /\ off + 32 <= blen (mem ++ repeat 0 k)) /\
+  (forall avail mem last off v m'' g l', mem_bounded mem -> word off -> word v ->
+  run_MSTORE8 avail mem last off v = Ok (m'', g, l') ->
+  exists k, m'' = spec_MSTORE8 (mem ++ repeat 0 k) off v /\ off + 1 <= blen (mem ++ repeat 0 k)) /\
+  (forall avail mem last data memOff dataOff len m'' g l', mem_bounded mem -> blen data < 2 ^ 62 ->
+  word memOff -> word dataOff -> word len ->
+  run_DATACOPY avail mem last data memOff dataOff len = Ok (m'', g, l') ->
+  exists k, m'' = spec_DATACOPY (mem ++ repeat 0 k) data memOff dataOff len /\ (len = 0 \/ memOff + len <= blen (mem ++ repeat 0 k))) /\
+  (forall (H : list Z -> list Z) avail mem last off len v m' g l', mem_bounded mem -> word off -> word len ->
+  run_SHA3 H avail mem last off len = Ok (v, m', g, l') -> v = spec_SHA3 H mem off len) /\
+  (forall gasfn avail mem last off len d m' g l', mem_gated gasfn -> mem_bounded mem -> word off -> word len ->
+  run_RANGE gasfn avail mem last off len = Ok (d, m', g, l') -> d = spec_data mem off (Z.to_nat len)) /\
+  (forall avail mem last rd memOff dataOff len, mem_bounded mem -> blen rd < 2 ^ 62 ->
+  word memOff -> word dataOff -> word len ->
+  match run_RETURNDATACOPY avail mem last rd memOff dataOff len with
+  | Ok _ => dataOff + len <= blen rd
+  | Err e => e = ErrGasUintOverflow \/ e = ErrOutOfGas \/ (e = ErrReturnDataOutOfBounds /\ blen rd < dataOff + len)
+  | Panic => False
+  end).
+Proof. exact memory_step_all. Qed.
+Print Assumptions C08_memory_step.
+
 (* ---- 3. JUMPDEST analysis: never panics; a destination is accepted iff it is a JUMPDEST that starts an instruction ---- *)
 
 Theorem C08_has_no_panic :
@@ -366,6 +444,23 @@ Theorem C08_narrowing :
 Proof. exact narrowing_all. Qed.
 Print Assumptions C08_narrowing.
 
+(* ---- 3f. big.Int aliasing.  OpsAlias.v writes the instruction shapes of instructions.go with stack slots as REFERENCES into
+   a heap of mutable big.Ints and the intPool as a list of references (x.Add(x,y); push(x); pool.put(y) ... DUP =
+   pool.get().Set(..), SWAP exchanges references).  Under the invariant "references on the stack and in the pool are pairwise
+   distinct" every shape computes on the heap what the value instruction computes and re-establishes the invariant; so
+   for whole sequences from the empty stack the heap view IS the value semantics, stack slots never share a big.Int and
+   a pooled big.Int is never on the stack.  (The shapes are a hand abstraction of the Go pointer manipulation; the tie is
+   the pointer probe VerifAliasRun on the real Stack/intPool after every step + the value correspondence of sequences.) ---- *)
+Theorem C08_aliasing :
+  (forall o s s', inv s -> rstep o s = Some s' ->
+  inv s' /\ vstep o (view s) = Some (view s')) /\
+  (forall ops s s', inv s -> rrun ops s = Some s' -> inv s' /\ vrun ops (view s) = Some (view s')) /\
+  (forall ops s s', inv s -> rrun ops s = Some s' ->
+  NoDup (rs_stack s') /\ (forall r, In r (rs_pool s') -> ~ In r (rs_stack s'))) /\
+  (forall h, inv (mk_rstate h 0 [] [])).
+Proof. exact aliasing_all. Qed.
+Print Assumptions C08_aliasing.
+
 (* ---- 4. the instruction tables of the current source are the prescribed ones; fork selection; constants ---- *)
 
 Theorem C08_table_is_spec :
@@ -486,6 +581,21 @@ Example C08_example :
   has [0x60; 0x5b; 0x5b] 2 = Ok true /\ has [0x60; 0x5b; 0x5b] 1 = Ok false /\
   oi_valid (spec_op Homestead 0x1d) = false /\ oi_valid (spec_op Spring 0x1d) = true.
 Proof. vm_compute. repeat split; try reflexivity; discriminate. Qed.
+
+(* non-vacuity of 2d / 2e: an MLOAD across the end of a 32-byte memory succeeds, reads zero-extended bytes and grows the
+   memory to 64 bytes; an offset of 2^64 is refused; 2^32 words are accepted and undercharged *)
+Example C08_example_memory_step :
+  run_MLOAD 100 (repeat 0 31 ++ [7]) 3 31 = Ok (7 * 2^248, repeat 0 31 ++ [7] ++ repeat 0 32, 6, 6) /\
+  run_MLOAD 100 [] 0 (2^64) = Err ErrGasUintOverflow /\
+  run_MLOAD 100 [] 0 100000 = Err ErrOutOfGas /\
+  memoryGasCost 0 0 (2^37) = Ok (Cmem_code (2^32), Cmem_code (2^32)) /\ Cmem_code (2^32) < Cmem (2^32).
+Proof. vm_compute. repeat split; reflexivity. Qed.
+
+(* non-vacuity of 3f: PUSH 5; DUP1; PUSH 7; ADD (in place on the top, 5's copy goes to the pool); SWAP1 on references *)
+Example C08_example_aliasing :
+  option_map view (rrun [R_push 5; R_dup 1; R_push 7; R_bin Z.add; R_swap 1] (mk_rstate (fun _ => 0) 0 [] [])) = Some [5; 12] /\
+  vrun [R_push 5; R_dup 1; R_push 7; R_bin Z.add; R_swap 1] [] = Some [5; 12].
+Proof. vm_compute. split; reflexivity. Qed.
 
 (* Interp is imported only here: it reuses some names of OpsSpec / OpsModel (G_log, CallStipend, ...) *)
 From AQ Require Import Evm.Interp Evm.OpsProofsState.
